@@ -25,7 +25,7 @@ WORLD_INFO = {'real': ['ControlConnection._refresh_node_list_and_token_map/_is_v
                        'Cluster.add_host/remove_host/on_add/on_remove, Metadata.rebuild_token_map/add_or_return_host, TokenMap'],
               'stub': ['libev C binding', 'sockets/TCP', 'ThreadPoolExecutor', 'fake nodes serving system.local/peers/peers_v2 (independent codec)']}
 ASSUMPTIONS = ['the control node (node 0) never leaves', 'tokens are Murmur3 integers given as strings, as Cassandra stores them']
-REQUIRED_PROBES = ['removed_event_for_listed_peer', 'peer_added', 'peer_removed', 'replace_in_one_snapshot', 'location_changed', 'tokens_changed_only', 'invalid_row',
+REQUIRED_PROBES = ['control_connection_moved_during_removal', 'removed_event_for_listed_peer', 'peer_added', 'peer_removed', 'replace_in_one_snapshot', 'location_changed', 'tokens_changed_only', 'invalid_row',
                    'duplicate_endpoint', 'event_driven_refresh', 'concurrent_refreshes']
 
 KINDS = ['add', 'add', 'remove', 'replace', 'move', 'retoken', 'invalidate', 'fix', 'duplicate', 'false_removed']
@@ -84,6 +84,10 @@ def gen_plan(rng, tier):
         else:
             continue
         steps.append(st)
+    if 1 in members and len(members - set([0, 1])) >= 1 and rng.random() < 0.35:
+        # last step: the control connection is lost, a peer leaves the ring while the driver is not listening, and the driver
+        # re-attaches its control connection to another node whose tables no longer list that peer
+        steps.append({'kind': 'ctrl_move_remove', 'node': rng.choice(sorted(members - set([0, 1]))), 'via': 'reconnect'})
     return {'cluster': {'nodes': nodes}, 'version': 4, 'steps': steps, 'strategy': gen_strategy(rng), 'time_jump_p': 0,
             'line_p': rng.choice([0, 0, 0.01]), 'points': rng.choice([0, 2])}
 
@@ -254,6 +258,26 @@ def run_plan(plan, seed, choices=None):
             mark = sim.nlog
             apply(stp)
             after_members = expected_hosts()
+            if stp['kind'] == 'ctrl_move_remove':
+                nonlocal ctrl
+                victim = fc.nodes[stp['node']]
+                old_ctrl = ctrl
+                old_ctrl.mode = 'refuse'
+                fc.rst_conns(old_ctrl.idx, 'control')
+                fc.remove_member(victim.idx, announce=None)
+                w.sleep(2.5)
+                old_ctrl.mode = 'accept'
+                cc = cluster.control_connection._connection
+                now = fc.node_by_addr(str(cc.endpoint.address)) if cc is not None else None
+                if now is None or now is old_ctrl:
+                    continue
+                sim.probe('control_connection_moved_during_removal')
+                ctrl = now
+                invalid.clear()
+                w.sleep(0.5)
+                check('step %d (control connection lost, %s left the ring meanwhile, control connection re-attached to %s)'
+                      % (k, victim.addr, now.addr), {'membership': True})
+                continue
             if stp['kind'] == 'false_removed':
                 sim.probe('removed_event_for_listed_peer')
                 ctrl.push_event('TOPOLOGY_CHANGE', 'REMOVED_NODE', fc.nodes[stp['node']].addr, 9042)
